@@ -36,7 +36,7 @@ def ignore_specs(draw, sig, kind):
         pool.append(i)
     pool += ['*', '**', '*', '**']
     if sig.get('varkw'):
-        pool += S.XKW[:2]
+        pool += S.XKW[:2] + ['func', 'key', 'ignored']       # multi-letter names whose letters are parameter names themselves
     if kind != 'method' and nn and draw(st.integers(0, 7)) == 0:
         # the bare (non-sequence) spellings: a single index or a single name
         return {'items': [draw(st.sampled_from([0, 0, nn - 1, H.sig_names(sig)[0]]))], 'style': 'bare'}
